@@ -178,11 +178,22 @@ def sprog_source(prog, ind='        '):
     return lines or [ind + 'pass']
 
 
-def sprog_term(prog):
+def _rmdefaults_term(spec):
+    ps = '; '.join(f'({coq_ustr(p["name"])}, ' + ('None' if p['required'] else f'(Some {encode.value_term(p.get("default"))})') + ')'
+                   for p in spec['params'])
+    if spec.get('extra'):
+        ps += ('; ' if ps else '') + f'({coq_ustr("_yatiml_extra")}, (Some VNone))'
+    ov = '; '.join(f'({coq_ustr(n)}, {encode.value_term(d)})' for n, d in (spec.get('defaults_override') or {}).items())
+    return f'(OpRemoveDefaults [{ps}] [{ov}])'
+
+
+def sprog_term(prog, spec=None):
     out = []
     for p in prog:
         k = p[0]
-        if k == 'op':
+        if k == 'op' and p[1][0] == 'rmdefaults_cls':
+            out.append(f'(SOp {_rmdefaults_term(spec)})')
+        elif k == 'op':
             out.append(f'(SOp {nodeops.op_term(p[1])})')
         elif k == 'if':
             out.append(f'(SIf {nodeops.op_term(p[1])} [' + '; '.join(nodeops.op_term(o) for o in p[2]) + '] ['
@@ -293,6 +304,8 @@ class Model:
             pybases.append({'ABC': 'abc.ABC'}.get(b, b))
         if kind == 'enum':
             pybases = pybases + ['enum.Enum'] if 'enum.Enum' not in pybases else pybases
+            if s.get('strmixin'):
+                pybases = ['str'] + pybases       # the common `class Level(str, enum.Enum)` idiom
         if kind == 'str':
             base = s.get('strbase', 'yatiml.String')
             if not any(self._is_strlike(b) for b in bases):
@@ -425,8 +438,8 @@ class Model:
                     return '(Some ' + term(s[key]) + ')'
                 return 'None'
             rec = hook('_yatiml_recognize', 'recognize', lambda p: rprog_term(p, self.ty_term))
-            sav = hook('_yatiml_savorize', 'savorize', sprog_term)
-            swe = hook('_yatiml_sweeten', 'sweeten', sprog_term)
+            sav = hook('_yatiml_savorize', 'savorize', lambda p, s=s: sprog_term(p, s))
+            swe = hook('_yatiml_sweeten', 'sweeten', lambda p, s=s: sprog_term(p, s))
             init = s.get('init', ('ok',))
             it = {'ok': 'InitOk', 'fail': 'InitFail'}.get(init[0]) or \
                 f'(InitFailIf {coq_ustr(init[1])} {encode.value_term(init[2])})'
